@@ -128,6 +128,17 @@ def _m(name, file, old, new, rule=None, count=1):
 
 
 MUTANTS = [
+    _m('countdown-without-wrap-guard', VB2, "      guard = f\" && {loop_var} <= {start}\"", "      guard = ''", 'R-tr-for'),
+    _m('countdown-guard-compares-with-end', VB2, "      guard = f\" && {loop_var} <= {start}\"", "      guard = f\" && {loop_var} <= {end}\"", 'R-tr-for'),
+    _m('negative-constant-step-emitted-as-translated', VB2, "        step_abs = str( -int( node.step._value ) )", "        pass", 'R-tr-for'),
+    _m('negative-constant-step-keeps-its-sign', VB2, "        step_abs = str( -int( node.step._value ) )", "        step_abs = str( int( node.step._value ) )", 'R-tr-for'),
+    # round-9 kinds
+    _m('component-array-index-pushed-at-the-front', VS4, "  def rtlir_tr_component_array_index( s, base_signal, index, status ):\n    s._rtlir_tr_unpacked_q.append( index )", "  def rtlir_tr_component_array_index( s, base_signal, index, status ):\n    s._rtlir_tr_unpacked_q.appendleft( index )", 'R-tr-dims-order'),
+    _m('interface-array-index-pushed-at-the-front', VS3, "  def rtlir_tr_interface_array_index( s, base_signal, index, status ):\n    s._rtlir_tr_unpacked_q.append( index )", "  def rtlir_tr_interface_array_index( s, base_signal, index, status ):\n    s._rtlir_tr_unpacked_q.appendleft( index )", 'R-tr-dims-order'),
+    _m('pending-indices-emitted-newest-first', VS1, "[f'[{i}]' for i in list(s._rtlir_tr_unpacked_q)]", "[f'[{i}]' for i in reversed(s._rtlir_tr_unpacked_q)]", 'R-tr-dims-order'),
+    dict(name='for-begin-end-via-local-counts-ir-statements', rule='R-tr-assign', edits=[
+        dict(file=VB2, old="    begin    = ' begin' if s.count_stmts( node.body ) > 1 else ''\n\n    cmp_op", new="    multi    = len( node.body ) > 1\n    begin    = ' begin' if multi else ''\n\n    cmp_op", count=1),
+        dict(file=VB2, old="    if s.count_stmts( node.body ) > 1:\n      src.extend( [ 'end' ] )", new="    if multi:\n      src.extend( [ 'end' ] )", count=1)]),
     # round-8 kinds: aliasing of shared mutable state / loop-control slips / slips in generated text / key-identity collisions
     _m('array-admission-compares-second-element-only', T.RTYPE, "    for x in obj[1:]:\n      assert self.get_rtlir(x) == ref_type, \\\n", "    for x in obj[1:2]:\n      assert self.get_rtlir(x) == ref_type, \\\n", 'R-tr-rtype-eq'),
     _m('array-admission-skips-second-element', T.RTYPE, "    for x in obj[1:]:\n      assert self.get_rtlir(x) == ref_type, \\\n", "    for x in obj[2:]:\n      assert self.get_rtlir(x) == ref_type, \\\n", 'R-tr-rtype-eq'),
@@ -400,6 +411,15 @@ MUTANTS = [
 ]
 
 EQUIV = [
+    _m('negative-constant-step-by-abs', VB2, "        step_abs = str( -int( node.step._value ) )", "        step_abs = str( abs( int( node.step._value ) ) )"),
+    dict(name='for-begin-end-condition-in-a-local', edits=[
+        dict(file=VB2, old="    begin    = ' begin' if s.count_stmts( node.body ) > 1 else ''\n\n    cmp_op", new="    multi    = s.count_stmts( node.body ) > 1\n    begin    = ' begin' if multi else ''\n\n    cmp_op", count=1),
+        dict(file=VB2, old="    if s.count_stmts( node.body ) > 1:\n      src.extend( [ 'end' ] )", new="    if multi:\n      src.extend( [ 'end' ] )", count=1)]),
+    dict(name='pending-indices-pushed-left-and-emitted-reversed', edits=[
+        dict(file=VS4, old="  def rtlir_tr_component_array_index( s, base_signal, index, status ):\n    s._rtlir_tr_unpacked_q.append( index )", new="  def rtlir_tr_component_array_index( s, base_signal, index, status ):\n    s._rtlir_tr_unpacked_q.appendleft( index )", count=1),
+        dict(file=VS3, old="  def rtlir_tr_interface_array_index( s, base_signal, index, status ):\n    s._rtlir_tr_unpacked_q.append( index )", new="  def rtlir_tr_interface_array_index( s, base_signal, index, status ):\n    s._rtlir_tr_unpacked_q.appendleft( index )", count=1),
+        dict(file=VS1, old="[f'[{i}]' for i in list(s._rtlir_tr_unpacked_q)]", new="[f'[{i}]' for i in reversed(s._rtlir_tr_unpacked_q)]", count=1)]),
+    _m('pending-indices-iterated-without-copy', VS1, "[f'[{i}]' for i in list(s._rtlir_tr_unpacked_q)]", "[f'[{i}]' for i in s._rtlir_tr_unpacked_q]"),
     _m('array-admission-as-all', T.RTYPE, "    for x in obj[1:]:\n      assert self.get_rtlir(x) == ref_type, \\\n             f'all elements of array {obj} must have the same type {repr(ref_type)}!'\n",
        "    assert all( self.get_rtlir(x) == ref_type for x in obj[1:] ), \\\n             f'all elements of array {obj} must have the same type {repr(ref_type)}!'\n"),
     _m('array-admission-loop-over-all-elements', T.RTYPE, "    for x in obj[1:]:\n      assert self.get_rtlir(x) == ref_type, \\\n", "    for x in obj:\n      assert self.get_rtlir(x) == ref_type, \\\n"),
